@@ -5,12 +5,16 @@ rows = []
 for p in sorted(glob.glob(os.path.join(os.path.dirname(os.path.dirname(os.path.abspath(__file__))), "seeded", "*", "meta.json"))):
     m = json.load(open(p))
     d = os.path.basename(os.path.dirname(p))
-    caught = ", ".join(c["check"] for c in m.get("caught_by", [])) or "—"
-    own = "yes" if m.get("own_check_catches") else "NO"
+    cb = [c["check"] if isinstance(c, dict) else c for c in m.get("caught_by", [])]
+    if m.get("status"):
+        caught, own = "(" + m["status"] + ")", "n/a"
+    else:
+        caught = ", ".join(cb) or "—"
+        own = "yes" if m["property"] in cb else "NO"
     title = m["title"].replace("|", "/")
     if len(title) > 110:
         title = title[:107] + "…"
     rows.append(f"| {d} | {title} | {own} | {caught} |")
-print("| seeded change | what it does | caught by its own property's check | caught by (quick tier, seed 1) |")
+print("| seeded change | what it does | reported by its own property's check | reported by (quick tier, seed 1) |")
 print("|---|---|---|---|")
 print("\n".join(rows))
